@@ -251,6 +251,17 @@ def text_of(root):
         return f"<unprintable: {type(e).__name__}>"
 
 
+def raised_in_code_under_test(e):
+    """True when the innermost frame of the exception is inside mathy_core (the code under test raised), False when the
+    harness itself did (which must stay a harness error, exit 2)."""
+    tb = e.__traceback__
+    last = None
+    while tb is not None:
+        last = tb.tb_frame.f_code.co_filename
+        tb = tb.tb_next
+    return last is not None and "mathy_core" in last and "/harness/" not in last
+
+
 def exc_site(e):
     """(type name, innermost frame inside mathy_core) for bucketing exceptions by root cause."""
     site = "?"
